@@ -18,6 +18,7 @@ func init() {
 			c10NoCreate(r)
 			c10Skip(r)
 			c10Reopen(r)
+			c10ReceiverState(r)
 			c10Pending(r)
 			c04Restart(r)
 			c10Responder(r)
@@ -278,4 +279,60 @@ func c10Responder(r *R) {
 			r.argIs("C10.6", s, 2, "dyn:message.RestartExistingChannelRequest(channel.ChannelID())", "restart-existing-channel request for this channel")
 		}
 	}
+}
+
+// c10ReceiverState (C10.7): when the responder answers an accepted push
+// restart by opening the transport channel, the channel state it hands to the
+// transport (from which the skip count is taken) is the one looked up after the
+// restart request was processed, and the lookup succeeded; a new request hands
+// over none.
+func c10ReceiverState(r *R) {
+	fn := r.fn("C10.7", "impl", "receiver", "receiveRequest")
+	orr := r.one("C10.7", fn, "(*impl.manager).OnRequestReceived")
+	if fn == nil || orr == nil {
+		return
+	}
+	resp := r.v(orr) + "#0"
+	r.c.Assumption("message accessors (IsRestart, IsNew, ...) are pure functions of the message: asking twice gives the same answer (their tables are decided by C12.3)")
+	isOpen := r.p.Is("(datatransfer.Transport).OpenChannel")
+	isGet := r.p.Is("(*channels.Channels).GetByID")
+	nRe, nNew := 0, 0
+	for _, pt := range r.pathsOf("C10.7", fn) {
+		io := pt.Index(isOpen)
+		ir := pt.Index(r.p.Is("(*impl.manager).OnRequestReceived"))
+		if io < 0 || ir < 0 || ir > io {
+			continue
+		}
+		open := pt.Evs[io]
+		ch := pt.ArgDesc(open, 5)
+		if pt.HasBefore(open.Instr, "+"+resp+".IsRestart()") && pt.HasBefore(open.Instr, "-"+resp+".IsRestart()") {
+			continue // the message's accessor asked twice with different answers: not an execution (accessors are pure, C12.3)
+		}
+		switch {
+		case pt.HasBefore(open.Instr, "+"+resp+".IsRestart()"):
+			nRe++
+			ok := false
+			for gi, ev := range pt.Evs {
+				if gi <= ir || gi >= io || !isGet(ev) {
+					continue
+				}
+				g := pt.Desc(ev.Instr.(ssa.Value))
+				if g+"#0" == ch && pt.ArgDesc(ev, 1) == pt.ArgDesc(open, 2) && pt.HasBefore(open.Instr, "+"+g+"#1==nil") {
+					ok = true
+				}
+			}
+			if nRe <= 2 || !ok {
+				r.c.Check(ok, "C10.7", fmt.Sprintf("receiveRequest/restart-state#%d", nRe), r.p.InstrPos(open.Instr), "transport re-opened with the channel state read after the restart was processed", "an accepted push restart opens the transport channel with "+ch+", which is not a successful lookup of the channel made after the restart request was processed (the sender is told to skip a stale or missing block count): "+pt.Describe())
+			}
+		case pt.HasBefore(open.Instr, "-"+resp+".IsRestart()"):
+			nNew++
+			if nNew <= 2 || ch != "nil" {
+				r.c.Check(ch == "nil", "C10.7", fmt.Sprintf("receiveRequest/new-state#%d", nNew), r.p.InstrPos(open.Instr), "a new request hands the transport no stored state", "a new push request opens the transport channel with stored state "+ch)
+			}
+		default:
+			r.c.Bad("C10.7", fmt.Sprintf("receiveRequest/undecided#%d", len(r.c.Obs)), r.p.InstrPos(open.Instr), "the transport channel is opened without testing whether the response is a restart: "+pt.Describe())
+		}
+	}
+	r.c.Floor("C10.7", nRe, 1, "restart paths opening the transport in receiveRequest")
+	r.c.Floor("C10.7", nNew, 1, "new-request paths opening the transport in receiveRequest")
 }
